@@ -667,6 +667,15 @@ func (m *metadataAPI) ReportLeader(ctx context.Context, req *proto.ReportLeaderO
 				leader, epoch, req.Leader, req.LeaderEpoch))
 	}
 
+	// Only an in-sync follower of the partition can act as a witness for the
+	// leader having failed.
+	if req.Replica == leader || !partition.inISR(req.Replica) {
+		return status.New(
+			codes.FailedPrecondition,
+			fmt.Sprintf("Replica %s is not an in-sync follower of partition [stream=%s, partition=%d]",
+				req.Replica, req.Stream, req.Partition))
+	}
+
 	m.mu.Lock()
 	failover := m.partitionFailovers[partition]
 	if failover == nil {
